@@ -466,6 +466,33 @@ static sf_count_t vh_read_t (SNDFILE *s, int t, int framewise, void *p, sf_count
 	switch (t) { case T_SHORT : return sf_read_short (s, p, items) ; case T_INT : return sf_read_int (s, p, items) ;
 		case T_FLOAT : return sf_read_float (s, p, items) ; default : return sf_read_double (s, p, items) ; } }
 
+
+/*------------------------------------------------------------------ test-file factory */
+/* value of frame i, channel c for the "counter" signal: distinct per frame in >= 16-bit lossless encodings, smooth enough for codecs */
+static inline int32_t vh_sig (long i, int c, int kind)
+{	if (kind == 0) return (int32_t) (((uint32_t) (i * 7 + c * 3 + 1) & 0x7fff) << 16) | 0 ;			/* counter in the top 16 bits (unique for 4681 frames per lap) */
+	if (kind == 1) return (int32_t) (1.6e9 * sin ((i + 31 * c) * 0.021) + 2.0e8 * sin (i * 0.37 + c)) ;	/* two-tone */
+	return (int32_t) (vh_mix ((uint64_t) i * 1024 + c) >> 32) ;											/* noise, position addressable */
+}
+/* write N frames of signal 'kind' (int API) into a fresh memory file; returns 0 on success */
+static int vh_make_file (MEMF *m, int format, int ch, int rate, long N, int kind)
+{	SNDFILE *s ; long i, done = 0 ; int c ; int *buf ; sf_count_t w = 0 ;
+	memset (m, 0, sizeof (*m)) ;
+	s = vh_open_w (m, format, ch, rate, NULL) ;
+	if (s == NULL) return -1 ;
+	buf = malloc (sizeof (int) * 4096 * ch) ;
+	while (done < N)
+	{	long k = N - done > 4096 ? 4096 : N - done ;
+		for (i = 0 ; i < k ; i++) for (c = 0 ; c < ch ; c++) buf [i * ch + c] = vh_sig (done + i, c, kind) ;
+		w = sf_writef_int (s, buf, k) ;
+		if (w != k) break ;
+		done += k ;
+		}
+	free (buf) ;
+	sf_close (s) ;
+	return done == N ? 0 : -2 ;
+}
+
 /* channel counts to try for a format: those of the candidate list the library accepts */
 static int vh_channels_for (int format, int *out, int max, int thorough)
 {	static const int cq [] = { 1, 2, 3, 5 }, ct [] = { 1, 2, 3, 5, 8, 17, 256, 1024 } ;
